@@ -8,3 +8,6 @@ import PycommProps.C01
 #print axioms Pycomm.C01.read_reply_decodes
 #print axioms Pycomm.C01.read_reply_decodes_scalar
 #print axioms Pycomm.C01.read_frag_e2e
+#print axioms Pycomm.C01.read_atomic_scalar_e2e
+#print axioms Pycomm.C01.read_atomic_scalar_e2e_encoded
+#print axioms Pycomm.C01.read_atomic_scalar_e2e_db
